@@ -52,6 +52,8 @@ func c01StepF(g *Gen, dst *ucfg.Config, src interface{}, srcDesc string, srcKind
 		}
 	case "self":
 		from = dst
+	case "cfgptr": // an existing *Config, used as it is (and possibly more than once)
+		from = src
 	}
 	nb, err := ucfg.VerifNormalize(from, opts...)
 	if err != nil {
@@ -96,6 +98,30 @@ func errKind(err error) string {
 func genC01(g *Gen) {
 	r := g.R
 	cfg := defaultTreeCfg
+	// one source *Config with empty containers merged into several targets, one of which is
+	// extended at those keys afterwards: the source is still what it was
+	for i := 0; i < g.N/20+3; i++ {
+		bm := randMap(r, cfg, 1)
+		bm["p"] = map[string]interface{}{}
+		bm["l"] = []interface{}{}
+		if r.Bool() {
+			bm["n"] = map[string]interface{}{"q": map[string]interface{}{}, "m": []interface{}{}}
+		}
+		b, err := ucfg.NewFrom(bm)
+		if err != nil {
+			continue
+		}
+		f := &frozenSrc{}
+		t1, t2 := ucfg.New(), ucfg.New()
+		pol := r.Intn(len(policyOpts))
+		c01StepF(g, t1, b, descTree(bm), "cfgptr", pol, "shared-empty", f)
+		c01StepF(g, t2, b, descTree(bm), "cfgptr", pol, "shared-empty", f)
+		ext := map[string]interface{}{"p": map[string]interface{}{"x": uint64(1)}, "l": []interface{}{"e"},
+			"n": map[string]interface{}{"q": map[string]interface{}{"y": true}, "m": []interface{}{uint64(2)}}}
+		c01Step(g, t1, ext, descTree(ext), "map", []int{0, 3, 4, 5}[r.Intn(4)]%len(policyOpts), "shared-empty")
+		c01StepF(g, ucfg.New(), b, descTree(bm), "cfgptr", 0, "shared-empty", f)
+		c01StepF(g, t2, b, descTree(bm), "cfgptr", 0, "shared-empty", f)
+	}
 	kinds := []string{"map", "map", "struct", "config"}
 	for i := 0; i < g.N; i++ {
 		// keys: mostly letters; sometimes numeric keys so that nodes get both parts
